@@ -74,6 +74,9 @@ def cases(tier: str) -> list[dict[str, Any]]:
     ]:
         for oi, o in enumerate(OPTS):
             cs.append(dict(key=f"unclosed/{name}/o{oi}", kind="unclosed", fname=name, text=text, opts=o))
+    # the same through the file entry point: bytes on disk in, bytes on disk out
+    for fname in ("simple", "crlf", "lone-cr", "formfeed", "unicode-seps", "tab-trailing-ws"):
+        cs.append(dict(key=f"file/{fname}", kind="file", fname=fname, fm=dict(FMS)[fname], body="qaa qab   qac\n", opts=OPTS[0]))
     cs.append(dict(key="twin/fm", kind="fm", fname="twin", fm=FMS[0][1], gap="\n", body="qaa   qab\n", lead="", opts=OPTS[0], twin=True))
     return cs
 
@@ -95,6 +98,25 @@ def run(env: Any, case: dict[str, Any]) -> Any:
         env.prove(out.startswith(want_fm), "frontmatter:exact", {"want_prefix": want_fm, "out": out[: len(want_fm) + 40]})
         env.prove(out == want_fm + alone, "frontmatter:body-independent", {"out": out, "fm+format(body)": want_fm + alone})
         return out
+    if case["kind"] == "file":
+        import shutil
+        import tempfile
+        from pathlib import Path
+
+        from flowmark.reformat_api import reformat_file
+
+        fm, body = case["fm"], env.text(case["body"])
+        want = fm.replace("\r\n", "\n") + reformat_text(body, width=W, **o)
+        d = Path(tempfile.mkdtemp(prefix="c07_"))
+        try:
+            p = d / "doc.md"
+            p.write_bytes((fm + "\n" + body).encode("utf-8"))
+            reformat_file(p, None, width=W, inplace=True, nobackup=True, **o)
+            got = p.read_bytes().decode("utf-8")
+        finally:
+            shutil.rmtree(d, ignore_errors=True)
+        env.prove(got.startswith(fm.replace("\r\n", "\n")), "frontmatter:exact-through-file", {"want_prefix": fm.replace("\r\n", "\n"), "got": got[: len(fm) + 20]})
+        return got
     if case["kind"] == "unclosed":
         text = env.text(case["text"])
         out1 = reformat_text(text, width=W, **o)
